@@ -198,14 +198,19 @@ func runC06(c *sim.Ctx) *sim.Violation {
 		consumed = func() int { return r.Delivered - br.Buffered() }
 		c.Count("probe.read-through-bufio.Reader")
 	}
+	var conn *link.Conn
 	if rd == io.Reader(r) && t.Bool(1, 4) {
 		// the stream seen as a connection that could also be closed: closing it is the
 		// program's business, never the decoder's (not even after a malformed frame)
-		rd = &link.Conn{R: r}
+		conn = &link.Conn{R: r}
+		rd = conn
 		c.Count("probe.read-from-a-closable-connection")
 	}
 	seqSig := ""
 	for k, f := range frames {
+		if conn != nil {
+			conn.Pause() // the next frame takes its time to arrive
+		}
 		typ := typeName(f[0] >> 4)
 		before := consumed()
 		got := ReadOne(rd)
